@@ -132,6 +132,7 @@ def toOp (l : Line) : Option Op :=
   | "lastcas" => some (.lastCas c)
   | "keys" => some (.keys c)
   | "draw" => some .draw
+  | "restart" => some (.restart (l.nat "hlc"))
   | _ => none
 
 /-! ### Printing -/
@@ -183,6 +184,7 @@ def fmtResp (l : Line) (resp : Resp) : String :=
   | .lastCas b c h => s!"r=ok bucket={b} coll={c} hlc={h}"
   | .keys ks => "r=ok keys=" ++ ",".intercalate ks
   | .next n => s!"r=ok next={n}"
+  | .reopened h n => s!"r=ok hlc={h} next={n}"
   | .out o =>
     let r := "r=" ++ o.err.name
     match l.op with
